@@ -50,7 +50,9 @@ def phase_case(s, rng, entry="sp_show_phase", kind="phase", kw=None):
     a = dict(kw)
     a["seq"] = s
     if "save" in entry:
-        a["fmt"] = rng.choice(["png", "pdf", "png"])
+        a["fmt"] = rng.choice(["png", "pdf", "png", "svg"])
+        if rng.random() < 0.5:
+            a["fname_ext"] = rng.choice(["png", "pdf", "svg", "v2", "", "PNG", "eps"])
     lines = [ptok(entry, a), "q fplus " + s, "q fminus " + s, "q region " + s, "q mnc " + s, "q uversky " + s]
     return Case(lines, {"kind": kind, "entry": entry, "args": a}, nontrivial=True)
 
@@ -127,7 +129,7 @@ SAVE_ENTRIES = ["sp_save_phase", "sp_save_uversky", "sp_save_linear", "sp_save_c
 def save_call(entry, rng):
     m = rng.randint(1, 3)
     seqs = [gen.rand_seq(rng, rng.choice(gen.KINDS), rng.randint(8, 30)) for _ in range(m)]
-    fmt = rng.choice(["png", "pdf"])
+    fmt = rng.choice(["png", "pdf", "svg"])
     if entry in ("sp_save_phase", "sp_save_uversky"):
         a = {"seq": seqs[0], "fmt": fmt}
     elif entry == "sp_save_linear":
@@ -141,6 +143,8 @@ def save_call(entry, rng):
     else:
         a = {"xs": [round(rng.random() * 0.5, 3) for _ in range(m)], "ys": [round(rng.random() * 0.5, 3) for _ in range(m)],
              "labels": ["s%d" % i for i in range(m)], "fmt": fmt}
+    if rng.random() < 0.5:
+        a["fname_ext"] = rng.choice(["png", "pdf", "svg", "v2", "", "PNG", "eps"])
     return a
 
 
@@ -254,8 +258,8 @@ def judge(case, reals, gens, specs):
     if not show:
         if not d.get("saved"):
             bad("no file written")
-        elif a.get("fmt") in ("png", "pdf") and d.get("magic") != a["fmt"]:
-            bad("file format %r, requested %r" % (d.get("magic"), a.get("fmt")))
+        elif a.get("fmt") in ("png", "pdf", "svg") and d.get("magic") != a["fmt"]:
+            bad("file format %r, requested %r (file name extension %r)" % (d.get("magic"), a.get("fmt"), a.get("fname_ext", a.get("fmt"))))
         # the figure as it was when savefig was called is inspected exactly like a shown one
         if d.get("n_savefig_calls") != 1 or not d.get("at_save"):
             bad("savefig called %r times" % d.get("n_savefig_calls"))
